@@ -18,7 +18,8 @@ RULE = (
     "and inside one activation of an instrumented driver function under an always-on probe "
     "'drv > g > w', which must fire exactly once per driver call. In both, 'gen > g > w' must never fire "
     "for a driver call and 'g > w' must fire exactly once per driver call while entered; after the last "
-    "leave nothing stays installed, whatever is done to the generators afterwards"
+    "leave nothing stays installed, whatever is done to the generators afterwards; the calls made by a "
+    "generator's own body after a throw() reach the overlay that names the generator as their ancestor"
 )
 ASSUMPTIONS = [
     "which handlers the generator *body* sees after its overlay ended is not asserted; events caused by "
@@ -370,6 +371,13 @@ class System:
                         probs.append(f"[{name}] driver call g({value}): overlay {o} ({OVERLAYS[o]}) received {new[o]!r}, expected {want!r} <{tag}>")
                 if name == "inside drv" and new["PD"] != (value,):
                     probs.append(f"[{name}] driver call g({value}): 'drv > g > w' received {new['PD']!r}, expected exactly one event")
+            # the generator's own calls are under the generator, however it was resumed: gen4's body calls
+            # g(500 + i) before every yield of item i, also when it yields the item again after a throw()
+            if op[0] in ("next", "throw") and self.kinds[op[1]] == "gen4":
+                want = body_calls_gen4(w.history)
+                if want is not None and new["OG4"] != want:
+                    probs.append(f"[{name}] {op!r}: the generator's own calls of g should reach 'gen4 > g > w' as {want!r}, "
+                                 f"received {new['OG4']!r} <body>")
             if name == "top-level" and snap != "unknown" and run.base_pairs is not None:
                 want_snap = tuple(["base"] * run.base_pairs + list(entered))
                 if snap != want_snap:
@@ -378,6 +386,38 @@ class System:
 
     def close(self, w):
         pass
+
+
+def body_calls_gen4(history):
+    """What overlay OG4 must receive from the last operation (a next / throw on a gen4 generator), when OG4
+    has been entered since before that generator was created; None when that is not the case."""
+    entered = set()
+    under = {}   # slot -> OG4 entered when it was created and ever since
+    count = {}
+    for o in history[:-1]:
+        if o[0] == "enter":
+            entered.add(o[1])
+        elif o[0] == "leave":
+            entered.discard(o[1])
+            if o[1] == "OG4":
+                under = {k: False for k in under}
+        elif o[0] == "create":
+            under[o[1]] = "OG4" in entered
+            count[o[1]] = 0
+        elif o[0] == "next":
+            count[o[1]] = count.get(o[1], 0) + 1
+        elif o[0] in ("close", "drop"):
+            under.pop(o[1], None)
+    op = history[-1]
+    k = op[1]
+    if not under.get(k):
+        return None
+    n = count.get(k, 0)  # yields delivered so far
+    if op[0] == "throw":
+        return (500 + n - 1,)          # the same item again
+    if n < 2:
+        return (500 + n,)              # next item
+    return (599,)                      # the loop is over: the call after it, then exhaustion
 
 
 def kinds_for(tier):
